@@ -12,6 +12,13 @@ streams (see lean/PlasVerif/Driver/C03.lean for the word formats)
   ifscan   : arbitrary (also unbalanced) token lists through processIfContent: implementation vs model only.
   newif    : names handed to the real Context.newif on a fresh context: the macro names it registers (switch, true-setter,
              false-setter) and whether the setters drive the switch; model = newifNames, spec = TeX's \\<rest>true/\\<rest>false.
+  invoke   : the real ifnum/ifdim/ifodd/ifcase .invoke on real token lists (processIfContent replaced by a recorder on the
+             TeX instance): selector + stream left; model = Model.IfInvoke.invoke (Macro.parse + readInteger/readDimen + relation chain).
+  condraw  : the same followed by the real processIfContent over arbitrary control-sequence names (\\file, \\orange, \\iffy,
+             \\newiffy, expanded look-ahead elements ...): model = condInvoke (classify = the macroName chain of the scanner).
+  testlit  : literal-structured operands of TeX's grammar (signs, decimal/octal/hex/character constants, registers, every
+             dimension form with pt/pc/sp) with the TeX oracle on the literal values.
+  extra    : two documents in one process (a switch of the same name starts false again) and two runs over one document.
   toks     : arbitrary (also unbalanced) token lists as documents: implementation vs model only.
 """
 import logging, random
@@ -36,9 +43,13 @@ LEVEL_NOTE = ('Trusted: Lean kernel (axioms propext, Classical.choice, Quot.soun
               'Not covered: \\ifmmode/\\ifhmode/\\ifvmode/\\ifinner/\\ifvoid/\\ifeof/\\ifcat/\\if/\\ifcsname (not in the property\'s list); '
               'O4: any macro whose name starts with "if" (e.g. \\ifthenelse) is counted as a conditional by the skipper (recorded, outside the listed forms).')
 TECHNIQUE = 'Lean 4 proof (mutual structural induction on conditional trees, well-founded interpreter) + differential correspondence (component and document level)'
-TRUSTED = ['operand scanning (TeX.readInteger/readDimen), \\value, macro expansion and argument parsing are tied by the cond stream only',
+TRUSTED = ['operand scanning of \\ifnum/\\ifdim/\\ifodd/\\ifcase is modelled at token level (Model/IfInvoke.lean over the C05 models of Macro.parse, readInteger, readDimen) and tied by the invoke/condraw/testlit streams; '
+           '\\value, macro expansion, the XTok reading of \\ifx and argument parsing of the surrounding commands are tied by the cond stream only',
            'scope of counters, \\newif switches and \\gdef (global) is an assumption of the model tied by the cond stream (groups are generated)']
-ASSUMPTIONS = ['\\newcount/\\newdimen registers used as operands are assigned in the preamble only (their scope is C04/C17 matter); '
+ASSUMPTIONS = ['NF-prog 2 is narrowed after the D59 repair: a number may be ended by \\relax, by a blank before a letter, or directly by \\or/\\else/\\fi; '
+               'it is still never followed directly by a macro whose expansion has an effect (O5: the look-ahead of readInteger would run it)',
+               '\\edef is a lazy \\def in plasTeX (a state-dependent conditional in an \\edef body is evaluated at use, not at definition): not generated, recorded',
+               '\\newcount/\\newdimen registers used as operands are assigned in the preamble only (their scope is C04/C17 matter); '
                'an integer literal directly followed by a count register (a product in plasTeX, not a TeX <number>) is not generated',
                'NF-prog (DESIGN.md section 5): number/dimension literals are \\relax-terminated, conditionals well nested in every macro body, argument and group',
                'a boolean conditional contains no \\or at its own level; \\ifx compares two letters or two parameterless macros with plain-text bodies',
@@ -357,7 +368,7 @@ def gen_raw_tokens(rng, doc):
 def generate(ctx):
     rng = ctx.rng
     quick = ctx.tier == 'quick'
-    n = 3000 if quick else 27000
+    n = 2600 if quick else 20000
     for _ in range(n):
         yield gen_cond_case(rng)
     for _ in range(n // 3):
@@ -367,6 +378,24 @@ def generate(ctx):
     for _ in range(n // 2):            # malformed / arbitrary (about 15% of all cases)
         w = rng.choice(['T', 'F', 'F'] + [str(i) for i in range(-3, 6)])
         yield Case('ifscan', w + ' ' + ' '.join(gen_raw_tokens(rng, False)), {})
+    for _ in range(n // 3):            # the test primitives with their operand scanning, on real tokens
+        k, ws = gen_invoke5(rng, False)
+        yield Case('invoke', k + ' ' + ' '.join(ws), {})
+    for _ in range(n // 3):            # ... followed by the real branch scan over arbitrary control sequence names
+        k, ws = gen_invoke5(rng, True)
+        yield Case('condraw', k + ' ' + ' '.join(ws), {})
+    for _ in range(n // 3):            # literal-structured operands (every integer form of TeX's grammar) with the TeX oracle
+        k = rng.choice(['num', 'num', 'odd', 'case', 'dim'])
+        if k == 'dim':
+            lit = gen_dimlit5(rng)
+            lit += [str(ord(rng.choice('<>=')))] + (lit if rng.random() < 0.15 else gen_dimlit5(rng))
+        else:
+            lit = gen_intlit5(rng, k == 'case')
+        if k == 'num':
+            lit += [str(ord(rng.choice('<>=')))] + gen_intlit5(rng)
+        tail = gen_tail5(rng, rng.randint(0, 3))
+        if rng.random() < 0.7 or (tail and any(t in [w_cs(a) for a in ACTIVE] for t in tail[:4])): tail = [w_cs('relax')] + tail
+        yield Case('testlit', k + ' ' + ' '.join(lit) + ' | ' + ' '.join(tail), {})
     for _ in range(n // 10):           # names handed to Context.newif: the part after `if` starts with i / f / if / fi ... or anything
         rest = ''.join(rng.choice('iiffffoaxtrue') for _ in range(rng.randint(0, 6))) + 'Q' + ''.join(rng.choice('XYZ') for _ in range(2))
         r = rng.random()
@@ -376,7 +405,22 @@ def generate(ctx):
         yield Case('toks', gen_init(rng) + ' ' + ' '.join(gen_raw_tokens(rng, True)), {'seed': rng.randrange(1 << 30)})
 
 
+def _corpus_files():
+    import os, json, glob
+    d = os.path.join(os.path.dirname(os.path.dirname(os.path.dirname(os.path.abspath(__file__)))), 'corpus', 'C03')
+    out = []
+    for f in sorted(glob.glob(os.path.join(d, '*.json'))):
+        w = json.load(open(f))
+        if 'case' in w:
+            out.append(Case.from_json(w['case'], 'corpus'))
+    return out
+
+
 def corpus():
+    return _corpus_files() + _corpus_inline()
+
+
+def _corpus_inline():
     z = '0,0,0,0,0,0'
     mk = lambda s, l, m=None: Case(s, l, m if m is not None else {'seed': 1}, 'corpus')
     return [
@@ -403,6 +447,12 @@ def corpus():
         mk('newif', ' '.join(str(ord(c)) for c in 'iffirstQ'), {}),
         mk('cond', z + ' [ tw0:1 cS:0 1 1 [ tc84 ] [ tc70 ] tw1:1 tw1:0 cS:1 1 1 [ tc84 ] [ tc70 ] n3 tw3:1 cS:3 1 1 [ tc84 ] [ tc70 ] ]', {'seed': 7}),
         mk('cond', z + ' [ tw0:1 cS:0 1 1 [ tc84 ] [ tc70 ] tw1:1 tw1:0 cS:1 1 1 [ tc84 ] [ tc70 ] n3 tw3:1 cS:3 1 1 [ tc84 ] [ tc70 ] ]', {'seed': 30}),
+        # a number directly followed by \or / \fi / \else (no \relax): the look-ahead of readInteger hands the scanner an element
+        mk('cond', z + ' [ cK:l1 0 2 [ ] [ tc66 ] tc88 ]', {'seed': 3, 'bare': 1.0}),
+        mk('cond', z + ' [ cO:l2 0 1 [ ] tc88 ]', {'seed': 3, 'bare': 1.0}),
+        mk('cond', z + ' [ cK:l0 1 2 [ ] [ tc66 ] [ tc67 ] tc88 ]', {'seed': 5, 'bare': 1.0}),
+        mk('cond', z + ' [ cN:l2:lt:l1 0 1 [ ] tc88 ]', {'seed': 5, 'bare': 1.0}),
+        mk('condraw', 'case c49 x102.105 c88', {}),
         mk('toks', z + ' iF oc65', {'seed': 1}),
         mk('toks', z + ' fi oc65 else oc66 or oc67', {'seed': 1}),
     ]
@@ -413,7 +463,7 @@ def nontrivial(o):
         return False
     if o.case.stream == 'cond':
         return len(o.aux) > 1 and o.aux[1] not in ('0', '')
-    return o.case.stream in ('ifscanwf', 'newif')
+    return o.case.stream in ('ifscanwf', 'newif', 'testlit')
 
 
 # ---------------------------------------------------------------- spelling (tree -> LaTeX)
@@ -437,8 +487,9 @@ def xtname(x): return 'xt' + letters(x[1]) + 'q' + ''.join(chr(c) for c in x[2])
 
 
 class Speller:
-    def __init__(self, seed, plain=False):
+    def __init__(self, seed, plain=False, bare=0.35):
         self.rng = random.Random(seed)
+        self.bare = bare            # how often a number is terminated as authors do (\else/\or/\fi, or a blank) instead of \relax
         self.ns = seed              # naming seed of the \newif switches
         self.plain = plain          # no wrappers (used for the toks stream)
         self.pre = {}               # macro name -> definition text
@@ -528,9 +579,19 @@ class Speller:
             ops = [m for m in (find_mac(o) for o in t[1:]) if m is not None] if t[0] in 'NOK' else []
             if ops:
                 param = (ops[0], '#1')
+        if not self.plain and t[0] != 'D' and rng.random() < 0.3 and all(pure_letters(b) for b in cases + [e]):
+            return self.csname_item(t, he, cases, e)
         inner_indef = indef or param is not None
         s = self.test(t, param)
-        s += '\\or '.join(self.body(b, inner_indef) for b in cases)
+        bodies = [self.body(b, inner_indef) for b in cases]
+        if not self.plain and t[0] in 'NOKD' and s.endswith('\\relax ') and rng.random() < self.bare:
+            # the operand is terminated the way authors write it: directly by \or/\else/\fi when the first branch is
+            # empty (TeX ends the number there), or by one blank before a letter
+            if bodies[0] == '':
+                s = s[:-len('\\relax ')] + rng.choice(['', ' '])
+            elif bodies[0][0].isalpha() and t[0] != 'D':
+                s = s[:-len('\\relax ')] + ' '
+        s += '\\or '.join(bodies)
         if he:
             s += '\\else ' + self.body(e, inner_indef)
         s += '\\fi ' if rng.random() < 0.8 else '\\fi\\relax '
@@ -538,6 +599,20 @@ class Speller:
             name = self.fresh('pm')
             return '\\def\\%s#1{%s}\\%s{%d}' % (name, s, name, param[0][1])
         return s
+
+    def csname_item(self, t, he, cases, e):
+        """a conditional whose branches are plain words, evaluated inside \\csname ... \\endcsname (the name is built by the
+        expanding iteration of csname.invoke): \\csname csq<selected word>\\endcsname, with \\def\\csq<word>{<word>}"""
+        words = [''.join(chr(it[1][1]) for it in b) for b in cases] + ([''.join(chr(it[1][1]) for it in e)] if he else [])
+        for w in words + ['']:
+            self.pre['csq' + w] = '\\def\\csq%s{%s}' % (w, w)
+        s = self.test(t)
+        if s.endswith('\\relax '):       # no \relax inside a name: the number ends at a blank or at \or/\else/\fi
+            s = s[:-len('\\relax ')] + ('' if words[0] == '' else ' ')
+        s += '\\or '.join(words[:len(cases)])
+        if he:
+            s += '\\else ' + words[-1]
+        return '\\csname csq' + s + '\\fi\\endcsname '
 
     def body(self, b, indef):
         """spell a body; random contiguous brace-balanced segments go into macro bodies / arguments"""
@@ -563,8 +638,11 @@ class Speller:
                     elif r < 0.9 and not indef:
                         name = self.fresh('ap')
                         out.append('\\def\\%s#1{#1}\\%s{%s}' % (name, name, inner))
-                    else:
-                        out.append('\\textbf{%s}' % inner)
+                    elif r < 0.93:
+                        out.append('\\%s{%s}' % (rng.choice(['textbf', 'mbox', 'underline', 'textit']), inner))
+                    else:       # an environment (its own group and digestion loop)
+                        env = rng.choice(['center', 'quote'])
+                        out.append('\\begin{%s}%s\\end{%s}' % (env, inner, env))
                     i = j
                     continue
             out.append(self.one(b[i], indef, stack))
@@ -586,6 +664,10 @@ class Speller:
         return ''.join(self.one(it, indef, stack) for it in seg)
 
 
+def pure_letters(b):
+    return all(it[0] == 't' and it[1][0] == 'c' and chr(it[1][1]).isalpha() for it in b)
+
+
 def find_mac(o):
     """the macro-produced literal inside an operand (under any signs), if any"""
     while isinstance(o, list) and o and o[0] == '-':
@@ -603,10 +685,12 @@ def balanced(seg):
     return d == 0
 
 
-def preamble(init, sp, cls):
+def preamble(init, sp, cls, regs_in_tex=True):
     s = '\\documentclass{article}' if cls else ''
     s += '\\begin{document}'
     cs, rs, ds = init
+    if not regs_in_tex:          # the registers are created through Context.newcount/newdimen by run_document
+        rs, ds = [], []
     for i, v in enumerate(cs):
         s += '\\newcounter{%s}\\setcounter{%s}{%d}' % (CNT[i], CNT[i], v)
     for i, v in enumerate(rs):
@@ -624,14 +708,19 @@ def preamble(init, sp, cls):
 
 def canon_exc(e):
     n = type(e).__name__
-    return 'err:' + n if n in ('IndexError', 'ValueError', 'StopIteration') else 'err:other:' + n
+    return 'err:' + n if n in ('IndexError', 'ValueError', 'StopIteration', 'UnboundLocalError', 'TypeError', 'AttributeError') else 'err:other:' + n
 
 
-def run_document(src, ns=0):
+def run_document(src, ns=0, regs=None):
     from plasTeX.TeX import TeX
     from plasTeX import TeXDocument
     doc = TeXDocument()
     tex = TeX(doc)
+    if regs is not None:
+        # a register assignment inside a document keeps the whole document reachable after the run (plasTeX-level retention,
+        # about 240 objects each): most documents get their registers through the Python API instead, 1 in 8 by \newcount/\newdimen
+        for i, v in enumerate(regs[0]): doc.context.newcount(REG[i], v)
+        for i, v in enumerate(regs[1]): doc.context.newdimen(DREG[i], v)
     tex.input(src)
     try:
         try:
@@ -806,11 +895,217 @@ def run_newif(name):
             pass
 
 
+# ---- token-level streams: the real test primitives on real token lists (word format of Driver/C05.lean)
+
+def dots(s):
+    return '.'.join(str(ord(c)) for c in s) if s else '-'
+
+
+def reg_name5(v):
+    return 'rg' + ('m' if v < 0 else '') + ''.join(chr(ord(d) + 49) for d in str(abs(v)))
+
+
+def real_tokens5(words, doc, regkind):
+    from plasTeX.Tokenizer import Letter, Other, Space, BeginGroup, EndGroup, EscapeSequence
+    import plasTeX
+    out = []
+    for w in words:
+        if w == 's': out.append(Space(' '))
+        elif w == '{': out.append(BeginGroup('{'))
+        elif w == '}': out.append(EndGroup('}'))
+        elif w[0] == 'c':
+            ch = chr(int(w[1:]))
+            out.append(Letter(ch) if ch.isalpha() else Other(ch))
+        elif w[0] == 'x':
+            out.append(EscapeSequence(''.join(chr(int(x)) for x in w[1:].split('.')) if w != 'x-' else ''))
+        elif w[0] == 'r':
+            v = int(w[1:])
+            name = reg_name5(v)
+            if regkind == 'count':
+                cls = type(name, (plasTeX.CountCommand,), {'value': plasTeX.count(v)})
+            else:
+                cls = type(name, (plasTeX.DimenCommand,), {'value': plasTeX.dimen(v)})
+            doc.context[name] = cls
+            out.append(EscapeSequence(name))
+        else:
+            raise ValueError(w)
+    return out
+
+
+KIND_MACRO = {'num': 'ifnum', 'dim': 'ifdim', 'odd': 'ifodd', 'case': 'ifcase'}
+
+
+def run_invoke(kind, words, full):
+    """the real primitive's invoke on a real token list.  full=False: processIfContent is replaced (on this TeX
+    instance) by a recorder, observation = selector + the stream left; full=True: the real processIfContent runs,
+    observation = correctly_terminated + the stream left."""
+    from plasTeX.TeX import TeX
+    from plasTeX import TeXDocument, ParameterCommand
+    _patch_log()
+    ParameterCommand._enablelevel = 0
+    ParameterCommand.enabled = True
+    doc = TeXDocument()
+    tex = TeX(doc)
+    try:
+        tex.input(real_tokens5(words, doc, 'dimen' if kind == 'dim' else 'count'))
+        obj = doc.createElement(KIND_MACRO[kind])
+        rec = []
+        if not full:
+            tex.processIfContent = lambda which, debug=False: rec.append(which)
+        del _warn[:]
+        try:
+            obj.invoke(tex)
+        except StopIteration as e:
+            return canon_exc(e)
+        except Exception as e:
+            return canon_exc(e)
+        rest = 'rest:' + '.'.join(str(ord(c)) for c in ''.join(t.source for t in tex.itertokens()))
+        if full:
+            return 'ok:%d|%s' % (0 if _warn else 1, rest)
+        if len(rec) != 1:
+            return 'bad:processIfContent-called-%d-times' % len(rec)
+        w = rec[0]
+        ws = ('b1' if w else 'b0') if isinstance(w, bool) else 'n%d' % int(w)
+        return 'ok:%s|%s' % (ws, rest)
+    finally:
+        ParameterCommand._enablelevel = 0
+        ParameterCommand.enabled = True
+        _release(doc, tex)
+
+
+def w_ch(c): return 'c%d' % ord(c)
+def w_cs(name): return 'x' + dots(name)
+
+
+def gen_signs5(rng):
+    n = rng.choice([0, 0, 0, 1, 1, 2, 3])
+    return ['S', str(rng.choice([0, 0, 0, 1])), str(n)] + ['%s%d' % (rng.choice('mmp'), rng.choice([0, 0, 1, 2])) for _ in range(n)]
+
+
+def gen_intlit5(rng, small=False):
+    """an integer literal of TeX's grammar in the word format of Driver/C05.lean: signs, then a decimal / octal /
+    hexadecimal / character constant or a register, then the optional blank"""
+    kind = rng.choice(['d', 'd', 'd', 'o', 'h', 'c', 'C', 'r'])
+    sp = rng.random() < 0.4
+    if kind == 'd': v = '.'.join(str(rng.randrange(10)) for _ in range(rng.randint(1, 1 if small else 4)))
+    elif kind == 'o': v = '.'.join(str(rng.randrange(8)) for _ in range(rng.randint(1, 3)))
+    elif kind == 'h': v = '.'.join(str(rng.randrange(16)) for _ in range(rng.randint(1, 3)))
+    elif kind == 'c': v, sp = str(ord(rng.choice('aAzZ09.;*[q'))), False
+    elif kind == 'C': v, sp = str(ord(rng.choice('aAzZ%$^'))), False
+    else: v, sp = str(rng.choice([0, 1, 2, 3, 5, -7, -2, 12, 65536])), False
+    return ['I'] + gen_signs5(rng) + [kind, v, '1' if sp else '0']
+
+
+def gen_dimlit5(rng):
+    """a dimension literal of TeX's grammar in the word format of Driver/C05.lean (units pt / pc / sp and registers, binary
+    fractions: exactly representable, so the float comparison of the code is the rational one)"""
+    sg = gen_signs5(rng)
+    if rng.random() < 0.2:
+        return ['M'] + sg + ['R', str(rng.choice([0, 1, 65536, -32768, 98304, 786432]))]
+    ip = rng.choice(['0', '1', '2', '3', '1.2', '-', '7'])
+    r = rng.random()
+    if ip == '-': sep, fp = rng.choice('cp'), rng.choice(['5', '2.5', '7.5', '0'])
+    elif r < 0.5: sep, fp = 'n', '-'
+    else: sep, fp = rng.choice('cp'), rng.choice(['-', '5', '2.5', '1.2.5', '0'])
+    if rng.random() < 0.15:
+        unit = ['0', '-', 'r%d' % rng.choice([1, 65536, -32768, 3]), '-', '0']
+    else:
+        i, name = rng.choice([(0, 'pt'), (0, 'pt'), (1, 'pc'), (8, 'sp')])
+        if name == 'sp' and (sep != 'n'): sep, fp = 'n', '-'
+        spell = ''.join(ch.upper() if rng.random() < 0.2 else ch for ch in name)
+        tru = '-' if rng.random() < 0.8 else dots(''.join(ch.upper() if rng.random() < 0.3 else ch for ch in 'true')) + '/' + str(rng.choice([0, 1]))
+        unit = [str(rng.choice([0, 0, 1])), tru, 'p%d' % i, dots(spell), rng.choice('01')]
+    return ['M'] + sg + ['B', ip, sep, fp, 'U'] + unit
+
+
+CSNAMES = ['relax', 'iftrue', 'iffalse', 'ifx', 'ifnum', 'iffoo', 'ifthenelse', 'if', 'ifi', 'fi', 'fi', 'fi', 'file', 'fil', 'fill', 'f',
+           'else', 'else', 'elsewhere', 'els', 'or', 'or', 'orange', 'o', 'newif', 'newiffy', 'new', 'footrue', 'iffy', 'IF', 'If', 'FI', 'Else']
+
+
+# names whose expansion does something (a scanner's look-ahead `for t in self` would run them: O5 / NF-prog 2); they may
+# stand anywhere in the text the branch scanner reads, but not directly after an operand
+ACTIVE = {'iftrue', 'iffalse', 'ifx', 'ifnum', 'if', 'newif', 'fil', 'fill'}
+
+
+def gen_tail5(rng, n=None, safe=False):
+    out = []
+    for _ in range(rng.randint(0, 10) if n is None else n):
+        r = rng.random()
+        if r < 0.45:
+            # safe: only defined, \relax-like names (an undefined one in relation position equals every string: UnrecognizedMacro.__eq__)
+            name = rng.choice(['relax', 'fi', 'else']) if safe else rng.choice(CSNAMES)
+            out.append(w_cs(name))
+        elif r < 0.8: out.append(w_ch(rng.choice('abXY019<=>-+\'"`.')))
+        elif r < 0.88: out.append('s')
+        elif r < 0.94: out.append(rng.choice('{}'))
+        else: out.append('r%d' % rng.choice([0, 1, 3, -2, 7]))
+    return out
+
+
+def gen_operand5(rng, dim):
+    """operand tokens, mostly of TeX's grammar: signs, digits / radix forms / register, (unit)"""
+    out = []
+    for _ in range(rng.choice([0, 0, 0, 1, 1, 2])):
+        out.append(w_ch(rng.choice('--+')))
+        if rng.random() < 0.3: out.append('s')
+    r = rng.random()
+    if r < 0.2:
+        out.append('r%d' % (rng.choice([0, 1, 3, -2, 7, 65536, 98304]) if dim else rng.choice([0, 1, 2, 3, -2, 7])))
+        return out
+    if dim:
+        out += [w_ch(c) for c in rng.choice(['0', '1', '2', '3', '12', '1.5', '.5', '2.25', '1,5', '3.'])]
+        if rng.random() < 0.3: out.append('s')
+        if rng.random() < 0.15:
+            out.append('r%d' % rng.choice([1, 65536, -32768]))
+            return out
+        if rng.random() < 0.2: out += [w_ch(c) for c in rng.choice(['true', 'TRUE', 'tRue'])] + (['s'] if rng.random() < 0.5 else [])
+        out += [w_ch(c) for c in rng.choice(['pt', 'pt', 'sp', 'pc', 'PT', 'Sp', 'p', ''])]
+    elif r < 0.65: out += [w_ch(c) for c in str(rng.choice([0, 1, 2, 3, 7, 12, 97, 255, 1000]))]
+    elif r < 0.75: out += [w_ch("'")] + [w_ch(c) for c in rng.choice(['7', '17', '141', '8', ''])]
+    elif r < 0.85: out += [w_ch('"')] + [w_ch(c) for c in rng.choice(['F', '1F', 'ff', '61', 'G', ''])]
+    else: out += [w_ch('`'), rng.choice([w_ch('a'), w_ch('0'), w_cs('a'), w_cs('%'), 's', w_cs('relax'), '{'])]
+    if rng.random() < 0.35: out.append('s')
+    return out
+
+
+def gen_invoke5(rng, full):
+    kind = rng.choice(['num', 'num', 'dim', 'odd', 'case', 'case'])
+    if rng.random() < 0.12:
+        return kind, gen_tail5(rng, safe=True)
+    ws = gen_operand5(rng, kind == 'dim')
+    if kind in ('num', 'dim'):
+        ws.append(rng.choice([w_ch('<'), w_ch('>'), w_ch('='), w_ch('='), w_ch('<'), w_ch('>'), w_ch('?'), w_cs('relax'), w_ch('a')]))   # (an undefined control sequence as relation compares equal to anything: UnrecognizedMacro.__eq__, outside TeX)
+        if rng.random() < 0.2: ws.append('s')
+        ws += gen_operand5(rng, kind == 'dim')
+    tail = gen_tail5(rng, None if full else rng.randint(0, 3))
+    if rng.random() < 0.6 or (tail and any(t in [w_cs(a) for a in ACTIVE] for t in tail[:4])): ws.append(w_cs('relax'))
+    return kind, ws + tail
+
+
 def impl(case, aux):
+    """one retry when the per-case alarm of the framework fires: a stall of the machine is not a verdict
+    (a second timeout is reported as err:timeout by the framework)"""
+    try:
+        return _impl(case, aux)
+    except BaseException as e:
+        if type(e).__name__ != 'CaseTimeout':
+            raise
+        import signal
+        signal.alarm(CASE_TIMEOUT)
+        return _impl(case, aux)
+
+
+def _impl(case, aux):
     st = case.stream
     f = case.line.split()
     if st == 'newif':
         return run_newif(''.join(chr(int(x)) for x in f))
+    if st == 'invoke':
+        return run_invoke(f[0], f[1:], False)
+    if st == 'condraw':
+        return run_invoke(f[0], f[1:], True)
+    if st == 'testlit':
+        return run_invoke(f[0], aux[0].split() if aux and aux[0] else [], False)
     if st == 'ifscan':
         return run_processif(f[0], f[1:])
     if st == 'ifscanwf':
@@ -819,18 +1114,18 @@ def impl(case, aux):
     init = parse_init(f[0])
     if st == 'cond':
         body, _ = p_body(f, 1)
-        sp = Speller(seed)
+        sp = Speller(seed, bare=(case.meta or {}).get('bare', 0.35))
         text = sp.body(body, False)
-        src = preamble(init, sp, seed % 2 == 0) + text + '\\end{document}'
+        src = preamble(init, sp, seed % 2 == 0, seed % 8 == 3) + text + '\\end{document}'
     elif st == 'toks':
         sp = Speller(seed, plain=True)
         text = ''.join(tok_tex(w, sp) for w in f[1:])
-        src = preamble(init, sp, seed % 2 == 0) + text + '\\end{document}'
+        src = preamble(init, sp, seed % 2 == 0, seed % 8 == 3) + text + '\\end{document}'
     else:
         raise ValueError(st)
     if isinstance(case.meta, dict):
         case.meta['tex'] = text
-    return run_document(src, seed)
+    return run_document(src, seed, None if seed % 8 == 3 else (init[1], init[2]))
 
 
 def judge(o):
@@ -838,6 +1133,71 @@ def judge(o):
     o.prop_ok = (o.spec == '-' or o.impl == o.spec)
     if not o.prop_ok:
         o.note = 'TeX rule (Spec) expects %s' % o.spec
+
+
+# ---------------------------------------------------------------- documents sharing one process
+
+def _two_docs(name, mode):
+    """mode 'fresh': document A creates \\if<name> and sets it true; document B (a new TeXDocument in the same process)
+    creates a switch of the same name: it must start false, and A's switch must still be true afterwards.
+    mode 'same': a second TeX run over the *same* document continues the job: the switch is still true, no new \\newif needed.
+    mode 'nested': A is interrupted in the middle of a false conditional by a complete run of B (re-entrancy of the scanner)."""
+    from plasTeX.TeX import TeX
+    from plasTeX import TeXDocument
+    def text(doc):
+        els = doc.getElementsByTagName('document')
+        return ''.join((els[0].textContent if els else doc.textContent).split())
+    test = '\\if%s T\\else F\\fi ' % name
+    docA = TeXDocument(); texA = TeX(docA)
+    try:
+        texA.input('\\begin{document}\\newif\\if%s %s\\%strue %s\\end{document}' % (name, test, name, test))
+        texA.parse()
+        obs = [text(docA)]
+        if mode == 'same':
+            tex2 = TeX(docA)
+            tex2.input(test + '\\%sfalse ' % name + test)
+            tex2.parse()
+            obs.append(''.join(docA.textContent.split())[len(obs[0]):])
+            return '|'.join(obs), 'FT|TF'
+        docB = TeXDocument(); texB = TeX(docB)
+        texB.input('\\begin{document}\\newif\\if%s %s\\end{document}' % (name, test))
+        texB.parse()
+        obs.append(text(docB))
+        obs.append('1' if docA.context['if' + name].state else '0')
+        _release(docB, texB)
+        return '|'.join(obs), 'FT|F|1'
+    finally:
+        _release(docA, texA)
+
+
+def extra_checks(ctx):
+    """switch state is per document: a second document in the same process starts from false; a second run over the
+    same document continues from the state reached (document-level oracle, not through the driver)"""
+    viol, n = [], 0
+    names = ['foo', 'first', 'item', 'swa', 'fi', 'draft'] + [swname(k, ctx.rng.randrange(1000)) for k in range(6)]
+    samples = []
+    for name in names:
+        for mode in ('fresh', 'same'):
+            n += 1
+            try:
+                got, want = _two_docs(name, mode)
+            except Exception as e:
+                got, want = canon_exc(e), 'no exception'
+            if len(samples) < 2:
+                samples.append({'two_documents': {'name': name, 'mode': mode}, 'observed': got})
+            if got != want:
+                viol.append(Violation('switch state leaks between documents / is lost between runs of one document',
+                                      {'kind': 'failing-input', 'extra': {'name': name, 'mode': mode},
+                                       'expected': want, 'observed': got}))
+    return viol, {'evaluations': n, 'distinct_nontrivial': n, 'samples': samples}
+
+
+def replay_extra(ctx, extra):
+    try:
+        got, want = _two_docs(extra['name'], extra['mode'])
+    except Exception:
+        return True
+    return got != want
 
 
 # ---------------------------------------------------------------- shrinking and search
